@@ -244,6 +244,16 @@ def _fmt(p):
     return {"exit": ex, "facts": sorted(map(str, f)), "effects": sorted(map(str, e))}
 
 
+def _has_cast(t):
+    return any(isinstance(x, tuple) and x and x[0] == "cast" for x in subterms(t))
+
+
+def _widened_u128(t):
+    """the u64 reserve fee is compared as u128 (the 128-bit fee difference is never truncated to meet it)"""
+    t = strip_all(t)
+    return t[0] == "cast" and t[2] == "u128"
+
+
 # ---------------------------------------------------------------------------------- C01.5 deferred validation
 def c01_5(ctx):
     R = "C01.5"
@@ -255,7 +265,7 @@ def c01_5(ctx):
     guards = {
         "minting": lambda t: t[0] == "bin" and t[1] == "Lt" and U.has_field(t[2], "removal_amount") and U.has_field(t[3], "addition_amount"),
         "reserve-fee": lambda t: t[0] == "bin" and t[1] == "Lt" and U.has_field(t[2], "removal_amount") and U.has_field(t[2], "addition_amount")
-        and U.has_field(t[3], "reserve_fee"),
+        and U.has_field(t[3], "reserve_fee") and not _has_cast(t[2]) and _widened_u128(t[3]),
         "impossible-height-absolute": lambda t: t[0] == "bin" and t[1] == "Le" and U.has_field(t[2], "before_height_absolute") and
         U.has_field(t[3], "height_absolute") and not U.has_field(t[3], "before_height_absolute"),
         "impossible-seconds-absolute": lambda t: t[0] == "bin" and t[1] == "Le" and U.has_field(t[2], "before_seconds_absolute") and
